@@ -158,3 +158,7 @@ Definition P_model (sz : nat) (tok : list byte) : list byte :=
     let k := Z.max (- exp_clamp) (Z.min exp_clamp ex) - Z.of_nat (length fp) in
     if m =? 0 then image f neg 0 0
     else if 0 <=? k then round_to f neg (m * 10 ^ k) 1 else round_to f neg m (10 ^ (- k)).
+
+(* printf with the precisions the property names (independent of Gen.v, so that these examples do not depend on the
+   constants of the tree under check) *)
+Definition F16 (sz : nat) (e : list byte) : list byte := fmt_g (if (sz =? 8)%nat then 16 else 7) (classify (fp_of sz) e).
